@@ -66,10 +66,19 @@ def comp(enc, data):
 
 
 def add_case(em, p, chunked, enc, table, events, ops, desc, bufsize=4096):
+    if getattr(em, "watchdog_hits", 0) >= 3:
+        return None, None
     try:
-        outs, buf = run_ops(p, events, ops, encoding=enc, bufsize=bufsize)
+        with vlib.watchdog(8):
+            outs, buf = run_ops(p, events, ops, encoding=enc, bufsize=bufsize)
         exp = b"".join(vlib.ser_bytes(o) for o in outs) + vlib.ser_bytes(buf) + b"\x00"
         impl = {"outputs": [o.hex()[:200] for o in outs], "buffer": buf.hex()[:200]}
+    except vlib.WatchdogTimeout as e:
+        em.watchdog_hits = getattr(em, "watchdog_hits", 0) + 1
+        em.violation("socket wrapper call did not finish (8 s watchdog)", {"recv_events": [x.hex() if x is not None else None for x in events], "ops": ops, "encoding": enc, "bufsize": bufsize}, repr(e))
+        outs, buf = None, None
+        exp = b"\x05"
+        impl = {"exception": "watchdog"}
     except Exception as e:  # noqa
         outs, buf = None, None
         exp = b"\x05"
@@ -77,7 +86,8 @@ def add_case(em, p, chunked, enc, table, events, ops, desc, bufsize=4096):
     tb = "[" + ";".join("(%s, %s)" % (vlib.blob(k), vlib.blob(v)) for k, v in table) + "]"
     em.add("obs_sock %s %s %s %s" % ("true" if chunked else "false", tb, blist(events), "[" + ";".join(vlib.zlit(n) for n in ops) + "]"),
            exp, [], desc, {"recv_events": [e.hex() if e is not None else None for e in events], "ops": ops, "encoding": enc, "bufsize": bufsize}, impl,
-           size=sum(len(e) for e in events if e) + sum(len(k) + len(v) for k, v in table))
+           size=sum(len(e) for e in events if e) + sum(len(k) + len(v) for k, v in table),
+           spec=["sock", [e.hex() if e is not None else None for e in events], list(ops), enc, bufsize])
     return outs, buf
 
 
@@ -206,6 +216,14 @@ def main():
                     if outs is None or b"".join(outs) + buf != want:
                         em.violation("C12: delivered bytes differ from the decoded chunk bodies (bufsize %d)" % bs,
                                      {"segments": [x.hex() for x in segs], "encoding": enc, "bufsize": bs, "ops": ops}, {"expected": want.hex()})
+            # the peer closes in the middle of the body (every prefix, then close): reads must finish and deliver a prefix of the plaintext
+            for cut in range(0, n + 1, 1 if n < 60 else 5):
+                segs = partitions(s[:cut], sorted(rng.sample(range(1, cut), min(cut - 1, 2))) if cut > 2 else [])
+                segs = [x for x in segs if x] + [b""]
+                outs, buf = add_case(em, p, True, enc, table, segs, [3, 1, 1, len(want) + 1], "chunked body cut at %d, then the peer closes" % cut)
+                em.direct_evaluations += 1
+                if outs is not None and not want.startswith(b"".join(outs) + buf):
+                    em.violation("C12: bytes delivered from a truncated chunked stream are not a prefix of the decoded body", {"segments": [x.hex() for x in segs], "encoding": enc}, {})
             # dechunk() itself on every prefix
             w = p.SocketWrapper(FakeSock([]), encoding=enc)
             for cut in range(0, n + 1, 1 if n < 80 else 3):
